@@ -1,6 +1,7 @@
 import BreezyVerif.Model.C43
 import BreezyVerif.Lemmas.C43C
 import BreezyVerif.Lemmas.C43H
+import BreezyVerif.Lemmas.C43I
 /-!
 C43 — theorems.
 -/
@@ -413,6 +414,28 @@ theorem full_upload_onto_empty_reaches_tree (c : Cfg) (ign : List String) (t : T
   obtain ⟨r', h1, h2⟩ := uploadFull_empty c ign t hbad hwf
   exact ⟨r', h1, h2.2, h2.matches.1, h2.matches.2.1⟩
 
+/-- **A full upload is idempotent.**  For every uploader variant that escapes its
+symlink paths, every ignore list, every well-formed tree and EVERY remote that
+already shows the tree on the paths that are not ignored (whatever it holds at
+ignored paths): the full upload succeeds and every path of the listing -
+ignored or not - shows exactly what it showed before.  In particular a second
+full upload right after the first changes nothing. -/
+theorem full_upload_idempotent (c : Cfg) (ign : List String) (t : Tree) (remote : Node) (hbad : c.badLinks = [])
+    (hwf : treeWF t = true) (hm : Matches ign t remote) :
+    ∃ r', uploadFull c ign t remote = (r', none) ∧ (∀ q, look r' q = look remote q) ∧ Matches ign t r' := by
+  obtain ⟨r', h1, h2⟩ := uploadFull_same c ign t remote hbad hwf hm
+  refine ⟨r', h1, h2, ?_⟩
+  intro p hp hi
+  rw [h2 p]
+  exact hm p hp hi
+
+theorem full_upload_twice (c : Cfg) (ign : List String) (t : Tree) (hbad : c.badLinks = []) (hwf : treeWF t = true) :
+    ∃ r1 r2, uploadFull c ign t (.dir []) = (r1, none) ∧ uploadFull c ign t r1 = (r2, none) ∧
+      ∀ q, look r2 q = look r1 q := by
+  obtain ⟨r1, h1, _, h3, _⟩ := full_upload_onto_empty_reaches_tree c ign t hbad hwf
+  obtain ⟨r2, g1, g2, _⟩ := full_upload_idempotent c ign t r1 hbad hwf h3
+  exact ⟨r1, r2, h1, g1, g2⟩
+
 /-- a tree with nested directories, an executable, a symlink below the top level and the ignore file -/
 def exTree1 : Tree :=
   [⟨[".bzrignore-upload"], .file, "b\n", false, ""⟩, ⟨["a"], .dir, "", false, ""⟩, ⟨["f"], .file, "1", true, ""⟩,
@@ -509,14 +532,17 @@ example :
 /-- **Symlink paths are not URL-escaped** (as found): `upload_symlink` is the one
 remote operation that does not go through `urlutils.escape`; for a link whose
 path the transport cannot take unescaped (`badLinks`) the upload stops with
-InvalidURL after `_force_clear` has already removed what was there; an uploader
-that escapes (`badLinks = []`) succeeds. -/
+InvalidURL after `_force_clear` has already removed what was there, or the link
+lands at the percent-decoded path; an uploader that escapes (`badLinks = []`)
+succeeds. -/
 theorem unescaped_symlink_witness :
     let t : Tree := [⟨["u"], .symlink, "", false, "t2"⟩, ⟨["z"], .file, "1", false, ""⟩]
     let remote : Node := .dir [("u", .link "t1")]
     let c : Cfg := { renames := .childrenFirst, robustSymlinks := true, kindChangeAtNew := true }
-    let r := uploadFull { c with badLinks := [["u"]] } [] t remote
+    let r := uploadFull { c with badLinks := [(["u"], none)] } [] t remote
+    let r' := uploadFull { c with badLinks := [(["u"], some ["v"])] } [] t remote
     r.2 = some .invalidURL ∧ present r ["u"] = false ∧ present r ["z"] = false ∧
+    r'.2 = none ∧ present r' ["u"] = false ∧ isLink r' ["v"] "t2" = true ∧
     (uploadFull c [] t remote).2 = none ∧ isLink (uploadFull c [] t remote) ["u"] "t2" = true := by decide
 
 /-- **The special files.**  A full upload does not copy `.bzrignore-upload` (nor
